@@ -29,7 +29,7 @@ RULE = (
     "return-value variable), every two-way block's test as the test of exactly one If, the multiset of (variable, constant) assignments of all "
     "SyntheticAssignment blocks, one membership-test If per extra target of head / exit-branch blocks, one while per loop region and one continue-flag "
     "update per exiting latch; ast.unparse + compile succeed; names bound beyond the original's match __scfg_*__, names read beyond are __scfg_*__ or "
-    "iter/next. For G4 additionally: executing the output on all decision tapes reproduces the block trace of an own interpreter of the input graph. "
+    "iter/next; generating code a second time from the same graph gives the same text. For G4 additionally: executing the output on all decision tapes reproduces the block trace of an own interpreter of the input graph. "
     "NotImplementedError = refusal (allowed, counted). Non-trivial = the restructured graph has a synthetic assignment block (the census covers paths "
     "no tape takes). Distinct = hash of the source / graph."
 )
@@ -142,6 +142,17 @@ def census(scfg, fdef, orig_src):
     return dict(statements=nstmts, synthetic_assignments=sum(want.values()), new_src=new_src)
 
 
+def again(orig_src, scfg, first_src):
+    """metamorphic: generating code a second time from the same restructured
+    graph gives the same text (the generator must not consume the graph)."""
+    try:
+        second = ast.unparse(ast.fix_missing_locations(SCFG2AST(orig_src, scfg)))
+    except Exception as e:
+        raise M.Viol("G-again", f"second code generation from the same graph raised {type(e).__name__}: {e}")
+    if second != first_src:
+        raise M.Viol("G-again", "second code generation from the same graph gives different source")
+
+
 # --------------------------------------------------------------------------
 # programs through the pipeline
 
@@ -155,6 +166,7 @@ def check_program(src, arg_idx, depth, max_runs, recorded):
         return "fail", f"C10:internal:{e.sig}", str(e), {}
     try:
         info = census(scfg, fdef, src)
+        again(src, scfg, info["new_src"])
     except M.Viol as v:
         return "fail", f"C10:{v.clause}", v.msg, {}
     return "ok", None, "", dict(statements=info["statements"], synthetic_assignments=info["synthetic_assignments"])
@@ -206,6 +218,7 @@ def check_g4(g, depth=9, max_runs=96):
         return "fail", f"C10:g4:internal:{type(e).__name__}@{lib_frame(e)}", f"SCFG2AST raised {type(e).__name__}: {e}", {}
     try:
         info = census(scfg, fdef, "def g():\n    d\n    e\n")
+        again(orig, scfg, info["new_src"])
     except M.Viol as v:
         return "fail", f"C10:g4:{v.clause}", v.msg, {}
     entry = M.find_entry(g)
